@@ -56,7 +56,11 @@ CFG = {
 MANIFEST = {
     "text": "Proof: per-decoder totality theorems over Lean models in which every Go index/slice/make/conversion is an "
             "explicit possibly-panicking operation, plus a kernel-decided table of the fault sites counted from the current source, "
-            "plus differential/fuzz streams feeding each real decoder under recover() with cap==len inputs.",
+            "plus differential/fuzz streams feeding each real decoder under recover() with cap==len inputs. The client's UDP receive "
+            "side (replies arriving at a client) has its own model: for every sequence of NewUDP/feed/receive/Close/receive-loop-exit "
+            "no operation panics (client_udp_never_panics; the send-on-closed-channel site is excluded by the invariant 'in the table "
+            "=> channel open', with the lock regions that make each operation atomic regenerated from core/client/udp.go), tied by an "
+            "exact differential that also feeds replies from two goroutines while the session is being closed.",
     "note": "Trusted: Lean kernel; the Go harness; external parsers not modelled. pion/stun, utls, net/http are run under recover() only.",
     "technique": "Lean 4 totality proofs over panic-explicit models + regenerated fault-site table + differential fuzz streams",
 }
